@@ -20,7 +20,7 @@ func init() {
 		Run: ruleDecDispatch,
 	})
 	register(&Rule{
-		Name: "dec-cursor-grammar", Props: []string{"C03", "C16"}, Engine: "PATH", Floor: 8,
+		Name: "dec-cursor-grammar", Props: []string{"C03", "C16"}, Engine: "PATH", Floor: 4,
 		Doc: "on every path through a representation clause the input cursor advances exactly as the RFC 7541 s6 grammar of that representation: indexed = int(7); literal = int(N) string | skip(1) string string; size update = int(5). A cursor advance conditioned on the content of the next octet is content-dependent framing",
 		Run: ruleDecCursor,
 	})
